@@ -1,1 +1,4 @@
 -- theorems about the model; see DynetxProofs/Properties.lean for the property statements
+import DynetxProofs.Lemmas.Timeline
+import DynetxProofs.Lemmas.Fields
+import DynetxProofs.Lemmas.Step
